@@ -5,13 +5,10 @@
 import ChalkModel.Lemmas.FixedPointMixM
 
 namespace Chalk.FixedPoint.Mix
-open Chalk.FixedPoint.Cyc (JE JA MinLe InCache InGraph Def Undef flagAt StackExt stackGoals)
+open Chalk.FixedPoint.Cyc (JE JA MinLe InCache InGraph Def Undef flagAt StackExt stackGoals QuietSt)
 
 section
-variable {inst : Instance} {P : Nat → Prop} {dom : List Nat} {lvl : Nat → Nat} {cfg : Cfg}
-
-/-- every cache entry is the true answer (vacuous when caching is disabled) -/
-def CacheOK (P : Nat → Prop) (s : St) : Prop := ∀ k v, InCache s k v → Holds P v k
+variable {inst : Instance} {P : Nat → Prop} {dom : List Nat} {lvl : Nat → Nat} {fx : Bool} {cfg : Cfg}
 
 theorem cacheOK_of_none {s : St} (h : s.cache = none) : CacheOK P s := by
   rintro k v ⟨cc, e, _⟩
@@ -27,15 +24,21 @@ theorem cacheOK_fresh (b : Bool) : CacheOK P (St.fresh b) := by
     subst e
     cases hk
 
-/-- TOTAL CORRECTNESS of `solve_root_goal` on stratified instances, caching enabled or disabled -/
-theorem solveRootGoal_correct (hyp : MHyp inst P dom lvl) (h3 : cfg.fixF3 = true) (h7 : cfg.fixF7 = true)
-    (hb : cfg.budget = none) (hov : dom.length ≤ cfg.overflowDepth) (hr : 2 ≤ cfg.rounds)
-    (s : St) (hq : s.oracle = [] ∧ s.oracleDefault = true) (hok : CacheOK P s)
-    (g : Nat) (hg : g ∈ dom) :
-    ∃ v s', solveRootGoal inst cfg g s = .ok v s' ∧ Holds P v g ∧
-      s'.stack = [] ∧ s'.graph = [] ∧ CacheOK P s' ∧ s'.cache.isSome = s.cache.isSome := by
-  have i1 : Inv inst P dom lvl { s with stack := [], graph := [], interrupted := false } := by
-    refine ⟨⟨hq.1, hq.2, rfl⟩, hok, ?_, ?_, List.nodup_nil, ?_, ?_, ?_, ?_, ?_, ?_, rfl, ?_, ?_⟩
+/-- `solve_root_goal` on stratified instances with ANY work budget and ANY `should_continue` oracle (the
+    repairs F10 and F16 are needed only if the oracle can say "stop": `fx`), caching enabled or disabled:
+    it returns the true answer — or `ambig`, and then solving was interrupted —, or it ends in the budget
+    panic; the cache it leaves is correct in all cases -/
+theorem solveRootGoal_general (hyp : MHyp inst P dom lvl) (h3 : cfg.fixF3 = true) (h7 : cfg.fixF7 = true)
+    (h10 : fx = true → cfg.fixF10 = true) (h16 : fx = true → cfg.fixF16 = true)
+    (hov : dom.length ≤ cfg.overflowDepth) (hr : 2 ≤ cfg.rounds)
+    (s : St) (hfx : fx = true ∨ QuietSt s) (hok : CacheOK P s) (g : Nat) (hg : g ∈ dom) :
+    (∃ v s', solveRootGoal inst cfg g s = .ok v s' ∧ (Holds P v g ∨ (v = .ambig ∧ s'.interrupted = true)) ∧
+      s'.stack = [] ∧ s'.graph = [] ∧ CacheOK P s' ∧ s'.cache.isSome = s.cache.isSome ∧
+      (QuietSt s → s'.interrupted = false)) ∨
+    (∃ s', solveRootGoal inst cfg g s = .panic .budget s' ∧ cfg.budget ≠ none ∧ CacheOK P s') := by
+  have i1 : Inv inst P dom lvl fx { s with stack := [], graph := [], interrupted := false } := by
+    refine ⟨hfx.imp id (fun q => ⟨q, rfl⟩), ?_, hok, ?_, ?_, List.nodup_nil, ?_, ?_, ?_, ?_, ?_, ?_, rfl, ?_, ?_⟩
+    · intro i n hn; exact absurd hn (by simp)
     · intro d e he; exact absurd he (by simp)
     · intro i n d i' n' d' hn; exact absurd hn (by simp)
     all_goals first
@@ -44,9 +47,18 @@ theorem solveRootGoal_correct (hyp : MHyp inst P dom lvl) (h3 : cfg.fixF3 = true
   have hbel : Below inst lvl { s with stack := [], graph := [], interrupted := false } g := by
     intro i n d hn
     exact absurd hn (by simp)
-  obtain ⟨v, m', s', hrun⟩ := solveGoal_tot hyp hb hov hr (cfg.overflowDepth + 1) g none _ i1 hg hbel
-    (by show cfg.overflowDepth < cfg.overflowDepth + 1 + 0; omega)
-  obtain ⟨i', hs', _, hf', _⟩ := solveGoal_sem hyp (cfg.overflowDepth + 1) g none _ v m' s' i1 hg hbel hrun
+  cases solveGoal_good hyp h3 h10 h16 hov hr (cfg.overflowDepth + 1) g none _ i1 hg hbel
+    (by show cfg.overflowDepth < cfg.overflowDepth + 1 + 0; omega) with
+  | inr hp =>
+    obtain ⟨s', hrun, h2⟩ := hp
+    refine Or.inr ⟨s', ?_, h2⟩
+    unfold solveRootGoal
+    simp only [h7, h3, Bool.not_true, Bool.false_and, Bool.false_eq_true, if_false, if_true]
+    rw [hrun]
+  | inl hok' =>
+  left
+  obtain ⟨⟨v, m'⟩, s', hrun⟩ := hok'
+  obtain ⟨i', hs', _, hf', _⟩ := solveGoal_sem hyp h3 h10 (cfg.overflowDepth + 1) g none _ v m' s' i1 hg hbel hrun
   have hstack : s'.stack = [] := List.eq_nil_of_length_eq_zero hs'.stack.1
   have hgraph : s'.graph = [] := by
     cases hgr : s'.graph with
@@ -62,19 +74,41 @@ theorem solveRootGoal_correct (hyp : MHyp inst P dom lvl) (h3 : cfg.fixF3 = true
       | none =>
         obtain ⟨l, _, hl⟩ := i'.nonstk 0 n hn hsd
         exact Nat.not_lt_zero _ hl
-  refine ⟨v, s', ?_, ?_, hstack, hgraph, i'.cacheOK, hs'.cacheMode⟩
+  refine ⟨v, s', ?_, ?_, hstack, hgraph, i'.cacheOK, hs'.cacheMode, fun q => (hs'.quiet q).2 rfl⟩
   · unfold solveRootGoal
     simp only [h7, h3, Bool.not_true, Bool.false_and, Bool.false_eq_true, if_false, if_true]
     rw [hrun]
-  · cases hf' with
-    | inl h =>
+  · rcases hf' with h | h | h
+    · left
       cases h.2 with
       | inl ht => exact ht
       | inr hw =>
         obtain ⟨i, n, hn, _⟩ := hw
         rw [hgraph] at hn
         simp at hn
-    | inr h => exact h.2.1
+    · exact Or.inl h.2.1
+    · exact Or.inr h
+
+/-- TOTAL CORRECTNESS of `solve_root_goal` on stratified instances (no interruption, no work budget),
+    caching enabled or disabled -/
+theorem solveRootGoal_correct (hyp : MHyp inst P dom lvl) (h3 : cfg.fixF3 = true) (h7 : cfg.fixF7 = true)
+    (hb : cfg.budget = none) (hov : dom.length ≤ cfg.overflowDepth) (hr : 2 ≤ cfg.rounds)
+    (s : St) (hq : s.oracle = [] ∧ s.oracleDefault = true) (hok : CacheOK P s)
+    (g : Nat) (hg : g ∈ dom) :
+    ∃ v s', solveRootGoal inst cfg g s = .ok v s' ∧ Holds P v g ∧
+      s'.stack = [] ∧ s'.graph = [] ∧ CacheOK P s' ∧ s'.cache.isSome = s.cache.isSome := by
+  cases solveRootGoal_general (fx := false) hyp h3 h7 (fun e => by cases e) (fun e => by cases e) hov hr s
+      (Or.inr hq) hok g hg with
+  | inr h => obtain ⟨_, _, hne, _⟩ := h; exact absurd hb hne
+  | inl h =>
+    obtain ⟨v, s', h1, h2, h3', h4, h5, h6, h7'⟩ := h
+    refine ⟨v, s', h1, ?_, h3', h4, h5, h6⟩
+    cases h2 with
+    | inl hc => exact hc
+    | inr ha =>
+      have := h7' hq
+      rw [ha.2] at this
+      cases this
 
 /-- a plain call (`Solver::solve`) -/
 theorem plainCall_correct (hyp : MHyp inst P dom lvl) (h3 : cfg.fixF3 = true) (h7 : cfg.fixF7 = true)
